@@ -136,6 +136,10 @@ def build_prog(p):
     doc.assetInfo = asset.Asset(created=FIXED_CREATED, modified=FIXED_MODIFIED, title=p.get('title'),
                                 unitname='meter', unitmeter=1.0, upaxis=asset.UP_AXIS.Y_UP if p.get('yup', 1) else asset.UP_AXIS.Z_UP,
                                 contributors=contributors)
+    for i in range(p.get('images', 0)):
+        # the last of three or more images names a file that does not exist
+        name = 'textures/missing.bin' if (i >= 2 and i == p.get('images', 0) - 1) else 'textures/tex%d.bin' % i
+        doc.images.append(material.CImage('img%d' % i, name, doc))
     mats = []
     for i in range(p.get('materials', 0)):
         eff = material.Effect('eff%d' % i, [], ['phong', 'lambert', 'blinn', 'constant'][i % 4],
@@ -252,8 +256,62 @@ def apply_edits(doc, edits):
             raise ValueError(e)
 
 
+TMP = None
+
+
+def texture_bytes(i):
+    return bytes(bytearray((i * 37 + j * 11) % 256 for j in range(40 + i)))
+
+
+def project(spec):
+    """Lay a document with auxiliary files out on disk (once per specification): a directory with
+    model.dae and textures/, or a zip archive holding the same; returns what to load"""
+    import zipfile
+    key = hashlib.sha1(json.dumps({k: v for k, v in spec.items() if k != 'history'}, sort_keys=True).encode()).hexdigest()[:12]
+    d = os.path.join(TMP, 'project-' + key)
+    dae = os.path.join(d, 'sub', 'model.dae')
+    zp = os.path.join(d, 'model.zip')
+    if not os.path.isdir(d):
+        os.makedirs(os.path.join(d, 'sub', 'textures'))
+        base = build_prog(spec['params'])
+        data = healthy_bytes(base)
+        ET.register_namespace('', NS)
+        root = ET.fromstring(data)
+        inject(root, spec.get('ext', []))
+        data = ET.tostring(root)
+        with open(dae, 'wb') as f:
+            f.write(data)
+        files = {}
+        for i in range(spec['params'].get('images', 0)):
+            files['textures/tex%d.bin' % i] = texture_bytes(i)
+        for name, b in files.items():
+            with open(os.path.join(d, 'sub', name), 'wb') as f:
+                f.write(b)
+        with zipfile.ZipFile(zp, 'w') as z:
+            z.writestr('sub/model.dae', data)
+            for name, b in files.items():
+                z.writestr('sub/' + name, b)
+    return d, dae, zp
+
+
 def build(spec):
     import collada
+    if spec['kind'] == 'pathdoc':
+        d, dae, zp = project(spec)
+        how = spec.get('how', 'path')
+        if how == 'path':
+            doc = collada.Collada(dae)
+        elif how == 'zip':
+            doc = collada.Collada(zp)
+        elif how == 'zipstream':
+            doc = collada.Collada(io.BytesIO(open(zp, 'rb').read()))
+        elif how == 'loader':
+            table = {'textures/tex%d.bin' % i: texture_bytes(i) for i in range(spec['params'].get('images', 0))}
+            doc = collada.Collada(dae, aux_file_loader=lambda name: table.get(name))
+        else:
+            doc = collada.Collada(open(dae, 'rb'))
+        apply_edits(doc, spec.get('edits', []))
+        return doc
     if spec['kind'] == 'file':
         data = open(os.path.join(DATA, spec['name']), 'rb').read()
         if spec.get('ext'):
@@ -423,8 +481,16 @@ def snapshot(doc):
                     continue
                 items.append('%s=%s' % (k, walk(d[k], depth + 1)))
             return '%s(%s)' % (type(x).__name__, ','.join(items))
+        if isinstance(x, BaseException):
+            return 'exc:%s(%s)' % (type(x).__name__, x)
+        if isinstance(x, type):
+            return 'class:' + x.__name__
+        import zipfile
+        if isinstance(x, zipfile.ZipFile):
+            return 'zip(%r,%r)' % (x.filename if isinstance(x.filename, str) else None, sorted(x.namelist()))
         if callable(x):
-            return '<fn>'
+            f = getattr(x, '__func__', x)
+            return 'fn:' + getattr(f, '__qualname__', type(x).__name__)
         return '<%s>' % type(x).__name__
 
     parts = []
@@ -433,6 +499,16 @@ def snapshot(doc):
     parts.append('asset=' + walk(doc.assetInfo))
     parts.append('scene=' + walk(doc.scene))
     parts.append('errors=%d' % len(doc.errors))
+    # every document-level attribute: where the document lives and how auxiliary files are found
+    # (filename, zfile, getFileData), error handling (errors, maskedErrors), validator, tag function, ...
+    for k in sorted(doc.__dict__):
+        if k == 'xmlnode':
+            continue
+        parts.append('doc.%s=%s' % (k, walk(doc.__dict__[k])))
+    try:
+        parts.append('doc.tag()=' + doc.tag('probe'))
+    except Exception as e:  # noqa
+        parts.append('doc.tag()=raises ' + type(e).__name__)
     return hashlib.sha1('\n'.join(parts).encode('utf-8', 'surrogatepass')).hexdigest()
 
 
@@ -480,6 +556,29 @@ def query(doc):
         for p in g.primitives:
             n += len(p)
     return n
+
+
+def lazy_queries(doc):
+    """queries whose answer is computed on first use from outside the document (auxiliary files):
+    evaluated for the first time only after all the attempts, compared with a twin on which
+    nothing was attempted"""
+    import numpy
+    out = []
+    for img in doc.images:
+        for name in ('data', 'pilimage', 'uintarray', 'floatarray'):
+            try:
+                v = getattr(img, name)
+                if isinstance(v, (bytes, bytearray)):
+                    r = 'bytes:' + hashlib.sha1(bytes(v)).hexdigest() + ':%d' % len(v)
+                elif isinstance(v, numpy.ndarray):
+                    r = 'nd:%s:%s' % (v.shape, hashlib.sha1(numpy.ascontiguousarray(v).tobytes()).hexdigest())
+                else:
+                    r = repr(v)[:80]
+            except Exception as e:  # noqa
+                r = 'raises ' + type(e).__name__
+            out.append([img.id, name, r])
+    out.append(['errors', len(doc.errors), [type(e).__name__ for e in doc.errors]])
+    return out
 
 
 # ----------------------------------------------------------------------------- one document
@@ -587,7 +686,10 @@ def run_doc(spec, tmpdir):
         sink = None
         if att['op'] == 'write':
             if dest[0] == 'path':
-                path = os.path.join(tmpdir, 'out%d.dae' % ai)
+                os.makedirs(os.path.join(tmpdir, 'export'), exist_ok=True)
+                path = os.path.join(tmpdir, 'export', 'out%d.dae' % ai)   # never the directory the document came from
+                if dest[1] != 'existing' and ai % 2:
+                    path = path.encode()                                   # a path may be given as bytes
                 if dest[1] == 'existing':
                     pre = b'previous content %d\n' % ai
                     with open(path, 'wb') as f:
@@ -661,7 +763,18 @@ def run_doc(spec, tmpdir):
         fail('later-write', 'write:final:' + type(e).__name__, 'after %d failed attempts a healthy write raises %r' % (nfail, e))
     if snapshot(doc) != snap0:
         fail('model-changed', 'history', 'the in-memory model differs from the start after the history')
-    return {'fails': fails, 'len': len(B), 'nfail': nfail, 'writable': True,
+    # lazy queries, first evaluated now, against a twin on which nothing was ever attempted
+    twin = build(spec)
+    lt = lazy_queries(twin)
+    ld = lazy_queries(doc)
+    if lt != ld:
+        i = next((i for i, (a, b) in enumerate(zip(lt, ld)) if a != b), 0)
+        fail('lazy-query', 'after-history:' + str(lt[i][1]),
+             'a query first evaluated after the attempts answers %r; on a document that was never saved it answers %r'
+             % (ld[i], lt[i]))
+    elif snapshot(twin) != snapshot(doc):
+        fail('lazy-query', 'after-history:snapshot', 'after the same first-time queries the model differs from that of a never-saved twin')
+    return {'fails': fails, 'len': len(B), 'nfail': nfail, 'writable': True, 'nlazy': len(ld) - 1,
             'case': {'masset': masset, 'arrs': arrs, 'msc': msc, 'tree0': tree0, 'events': events,
                      'ubefore': ubefore, 'uafter': uafter},
             'nunmanaged': len(before_unm), 'atoms': len(I.dyn)}
@@ -692,6 +805,9 @@ def run_unwritable(spec, tmpdir, err):
             os.remove(path)
     if snapshot(doc) != s0:
         fails.append({'clause': 'model-changed', 'site': 'write:unwritable', 'what': 'a failed write changed the model', 'detail': {}})
+    if lazy_queries(build(spec)) != lazy_queries(doc):
+        fails.append({'clause': 'lazy-query', 'site': 'after-history:unwritable',
+                      'what': 'a query first evaluated after a failed write answers differently from a never-written twin', 'detail': {}})
     return {'fails': fails, 'len': 0, 'nfail': 2, 'writable': False, 'case': None, 'why': repr(err)[:200]}
 
 
@@ -732,6 +848,9 @@ def sink_enum(spec, ns, check_every):
                               'detail': {'n': n}})
     if snapshot(doc) != s0:
         fails.append({'clause': 'model-changed', 'site': 'write:sink', 'what': 'failed writes changed the in-memory model', 'detail': {}})
+    if lazy_queries(build(spec)) != lazy_queries(doc):
+        fails.append({'clause': 'lazy-query', 'site': 'after-sink-failures',
+                      'what': 'a query first evaluated after failed writes answers differently from a never-written twin', 'detail': {}})
     return {'fails': fails, 'positions': done, 'len': len(B)}
 
 
@@ -770,8 +889,10 @@ def main():
     if 'indent' in payload:
         json.dump(indent_cases(payload['indent']), sys.stdout)
         return
+    global TMP
     tmpdir = tempfile.mkdtemp(prefix='c03-')
     assert not tmpdir.startswith('/repo') and not tmpdir.startswith('/verif')
+    TMP = tmpdir
     try:
         out = []
         for job in payload['jobs']:
